@@ -210,3 +210,30 @@ def minimal_num(b):
 def cast_to_bool(b):
     """Script truth value: some byte non-zero, except for negative zero (sign bit only in the last byte)"""
     return exists(range(0, len(b)), lambda i: b[i] != 0 and not (i == len(b) - 1 and b[i] == 0x80))
+
+
+# ---- executable reference tokeniser (used by the bounded check of raw_iter) ---------------------
+def ref_tokens(s):
+    """(list of (opcode, data or None, offset), error flag) by the one-operation parser above"""
+    s = bytes(s)
+    out = []
+    i = 0
+    while i < len(s):
+        if not op_ok(s, i):
+            return out, True
+        d = None if s[i] > OP_PUSHDATA4 else bytes(op_data(s, i))
+        out.append((s[i], d, i))
+        i = next_i(s, i)
+    return out, False
+
+
+def drain(gen):
+    """consume a raw_iter() generator: (list of yields, True if it ended with an invalid-script error)"""
+    from bitcoin.core.script import CScriptInvalidError
+    out = []
+    try:
+        for (op, data, idx) in gen:
+            out.append((int(op), None if data is None else bytes(data), idx))
+    except CScriptInvalidError:
+        return out, True
+    return out, False
